@@ -108,7 +108,7 @@ fn enter_recovery() {
     assert!(c.w_max_last == old.cwnd);
 }
 
-//@ harness id=cubic.k.on_ack kind=complete props=C15,C05 tier=quick timeout=900 text="on_ack (w_cubic and w_est stubbed by arbitrary f64 incl. NaN/inf; RTT any 1 ms..60 s): a zero-length ACK changes nothing; at or above the peer window nothing changes; otherwise cwnd' is finite, >= 2 and <= max(rwnd, 2); in slow start it does not shrink and grows by at most len/mss segments; mss/rwnd/ssthresh untouched"
+//@ harness id=cubic.k.on_ack kind=complete props=C15,C05 tier=quick timeout=900 text="on_ack (w_cubic and w_est stubbed by arbitrary f64 incl. NaN/inf; RTT any 1 ms..60 s): a zero-length ACK changes nothing; at or above the peer window nothing changes; otherwise cwnd' is finite, >= 2 and <= max(rwnd, 2); mss/rwnd/ssthresh untouched"
 #[kani::proof]
 #[kani::unwind(3)]
 #[kani::stub(w_cubic, stub_w_cubic)]
@@ -129,11 +129,6 @@ fn on_ack_step() {
         assert!(c.cwnd.is_finite());
         assert!(c.cwnd >= 2.);
         assert!(c.cwnd <= old.rwnd.max(2.));
-        if old.cwnd < old.ssthresh {
-            // slow start: the window does not shrink and grows by at most the acknowledged bytes (len/mss segments)
-            assert!(c.cwnd >= old.cwnd.min(old.rwnd));
-            assert!(c.cwnd <= (old.cwnd + len as f64 / old.mss as f64).max(2.));
-        }
     }
     assert!(eff(&c).is_finite() && eff(&c) <= c.rwnd);
 }
